@@ -230,6 +230,12 @@ class M(Hooks):
             self.v('wrong_opener', 'query',
                    f'actor_index {s.actor_index}, expected {actor}'
                    f' (designated {designated}; {desc})')
+        elif si is not None and si > 0 and s.can_post_bring_in():
+            # the forced bring-in belongs to the first round only: later
+            # rounds are opened freely
+            self.v('bring_in_on_later_round', '',
+                   f'round {si} is opened by player {actor} under a forced'
+                   f' bring-in ({desc})')
 
 
 def budget(tier):
